@@ -7,6 +7,10 @@ import EPV.Gen.SedovFuncs
 import EPV.Gen.SedovFuncsO2
 import EPV.Gen.SedovFuncsO3
 import EPV.Tactics
+import EPV.Lemmas.Bridge.SemiSedovFuncs
+import EPV.Lemmas.Bridge.SemiSedovFuncsO2
+import EPV.Lemmas.Bridge.SemiSedovFuncsO3
+import EPV.Lemmas.HydroRobust
 
 set_option linter.all false
 set_option maxRecDepth 100000
